@@ -280,14 +280,20 @@ func quote(s string) string {
 }
 
 // Functions is the generated function table: 0..3 fixed params ± variadic.
+// The fixed parameters of f2, f3 and join are slices of ONE backing array (a common
+// parameter prefix declared once), so join's Params has spare capacity behind its length
+// and f2 / f3 own the slots there: a query that appends to the Params of a signature it
+// was handed writes into what the caller supplied (C04), races with other queries (C05)
+// and changes the signatures of f2 / f3 (C03, C20). Every call builds a fresh array.
 func Functions() map[string]schema.FunctionSignature {
+	abc := []function.Parameter{{Name: "a", Type: cty.String}, {Name: "b", Type: cty.Number}, {Name: "c", Type: cty.Bool}}
 	return map[string]schema.FunctionSignature{
 		"f0":     {Description: "f0 takes nothing", ReturnType: cty.String},
 		"upper":  {Description: "upper", ReturnType: cty.String, Params: []function.Parameter{{Name: "s", Type: cty.String}}},
 		"length": {Description: "length", ReturnType: cty.Number, Params: []function.Parameter{{Name: "v", Type: cty.DynamicPseudoType}}},
-		"f2":     {Description: "f2", ReturnType: cty.String, Params: []function.Parameter{{Name: "a", Type: cty.String}, {Name: "b", Type: cty.Number}}},
-		"f3":     {Description: "f3", ReturnType: cty.Bool, Params: []function.Parameter{{Name: "a", Type: cty.String}, {Name: "b", Type: cty.Number}, {Name: "c", Type: cty.Bool}}},
-		"join":   {Description: "join", ReturnType: cty.String, Params: []function.Parameter{{Name: "sep", Type: cty.String}}, VarParam: &function.Parameter{Name: "lists", Type: cty.List(cty.String)}},
+		"f2":     {Description: "f2", ReturnType: cty.String, Params: abc[:2]},
+		"f3":     {Description: "f3", ReturnType: cty.Bool, Params: abc[:3]},
+		"join":   {Description: "join", ReturnType: cty.String, Params: abc[:1], VarParam: &function.Parameter{Name: "lists", Type: cty.List(cty.String)}},
 		"v0":     {Description: "v0 only variadic", ReturnType: cty.Number, VarParam: &function.Parameter{Name: "nums", Type: cty.Number}},
 		"any":    {Description: "any returns dynamic", ReturnType: cty.DynamicPseudoType, VarParam: &function.Parameter{Name: "vals", Type: cty.DynamicPseudoType}},
 		"tolist": {Description: "tolist", ReturnType: cty.List(cty.DynamicPseudoType), Params: []function.Parameter{{Name: "v", Type: cty.DynamicPseudoType}}},
